@@ -35,7 +35,7 @@ def oracle(run, sec, case):
     tr = sec.mnemonic_transforms
     eq = (lambda a, b: a.upper() == b.upper()) if tr else (lambda a, b: a == b)
     items = list(list.__iter__(sec))
-    reserved = set(dir(SectionItems))
+    reserved = set(dir(sec))      # class attributes and plain instance attributes shadow item lookup (Python semantics)
     before = snap(sec)
     for k in secops.KEYS + ["Q", "unknown"]:
         if isinstance(k, str):
@@ -155,8 +155,28 @@ def one(run, seq, tr, kind, with_oracle=True):
              + ["err=" + s["r"] for s in real if isinstance(s["r"], str) and s["r"].endswith("Error")])
     if with_oracle:
         sec = secops.new_section(tr)
-        for op in seq:
+        for n, op in enumerate(seq):
+            present = op[0] == "setattr" and (op[1] in sec)
+            before = snap(sec)
             secops.apply_real(sec, op)
+            if op[0] == "setattr":
+                # `section.<key> = value` must behave like `section[key] = value` when the key is present, else leave the items alone
+                c2 = {"tr": tr, "ops": seq[:n + 1]}
+                if present:
+                    try:
+                        it = sec[op[1]]
+                        idx = next(j for j, x in enumerate(list.__iter__(sec)) if x is it)
+                        exp = list(before)
+                        exp[idx] = (exp[idx][0], exp[idx][1], exp[idx][2], op[2], exp[idx][4])
+                        if snap(sec) != exp:
+                            run.fail("setattr-sets-value", c2, dict(key=op[1], before=before, after=snap(sec)))
+                    except Exception as e:
+                        run.fail("setattr-sets-value", c2, dict(key=op[1], exc=repr(e)))
+                elif snap(sec) != before:
+                    run.fail("setattr-missing-key-changes-items", c2, dict(key=op[1]))
+            strip_session = lambda sn: [(a, c, d, e) for (a, b, c, d, e) in sn]
+            if op[0] == "getdef" and (strip_session(snap(sec))[:len(before)] != strip_session(before) or (not op[3] and snap(sec) != before)):
+                run.fail("get-default-item-mutates-section", {"tr": tr, "ops": seq[:n + 1]}, dict(before=before, after=snap(sec)))
         oracle(run, sec, case)
     return case, real
 
